@@ -42,6 +42,7 @@ def main(tier):
         runs = [{"source": src, "path": path, "mode": "complete", "resp": resp or [{"k": "val", "v": 1}], "role": "rep"} for _ in range(K)]
         jobs.append({"id": len(jobs), "runs": runs}); metas.append({"kind": "repeat"}); descr.append(what)
     for nest in L.NEST:
+        if nest in L.NEVER_COMPLETES: continue
         for mode in ("complete", "throw"):
             src, asy = L.death_program(nest, mode)
             body = src.split("\n", 2 if asy else 1)[-1]
